@@ -83,7 +83,8 @@ def classify(v):
         return "eof-error-offset-not-translated-for-token-less-input"
     # Known deviation (same root as C02's fstring-crlf-shifts-inner-ranges): the string parser works on the literal's
     # value in which CRLF is already folded to LF, so an error it reports after a CRLF inside a (triple-quoted) literal
-    # is located one byte too far left per CRLF and can fall inside a multi-byte character.
+    # is located one byte too far left per CRLF and can fall inside a multi-byte character (the CRLF may also be the one of
+    # a backslash-newline inside a single-quoted literal).
     if v["what"] in ("parse-error-offset", "lex-error-offset"):
         import re
         m = re.search(r" at (\d+)", v["detail"])
@@ -93,7 +94,7 @@ def classify(v):
             if 0 <= rel <= len(b):
                 for k in range(1, b[:rel + 8].count(b"\r\n") + 1):
                     o = rel + k
-                    if o <= len(b) and (o == len(b) or (b[o] & 0xC0) != 0x80) and b"\r\n" in b[:o] and (b"'''" in b[:o] or b'"""' in b[:o]):
+                    if o <= len(b) and (o == len(b) or (b[o] & 0xC0) != 0x80) and b"\r\n" in b[:o] and (b"'''" in b[:o] or b'"""' in b[:o] or b"\\\r\n" in b[:o]):
                         return "string-error-offset-shifted-left-per-crlf-inside-literal"
     return "unlisted:" + v["what"]
 
